@@ -72,6 +72,12 @@ type Scenario struct {
 	// finished (or a generous timeout expires, which is the violation).
 	GateU   int `json:"gateu,omitempty"`
 	GateFor int `json:"gatefor,omitempty"`
+	// Rendezvous scenario (C03 "the capacity is real"): every invocation of a
+	// unit listed in RdvUnits - functions that have no dependency, hence are
+	// runnable from the start - parks at its start until Rdv of them are
+	// executing at the same time. Rdv = min(limit, number of such invocations).
+	Rdv      int   `json:"rdv,omitempty"`
+	RdvUnits []int `json:"rdvunits,omitempty"`
 }
 
 // Event is one entry of the execution log.
@@ -180,12 +186,24 @@ type Env struct {
 	// of the process); MaxG keeps the maximum.
 	Census bool
 	MaxG   atomic.Int32
+	// InconclusiveWhy explains a gate / rendezvous timeout that was not a verdict.
+	InconclusiveWhy string
+	// BaseG: goroutines that existed before the directive was called.
+	BaseG map[int64]bool
+	// MaxGInfo describes the goroutines of the largest census (guarded by mu).
+	MaxGInfo string
 
 	elemOut map[[2]int]Outcome
 	Ems     []*RecEmitter
 
 	gateOnce         sync.Once
 	gateCh           chan struct{}
+	rdvOnce          sync.Once
+	rdvCh            chan struct{}
+	rdvArrived       atomic.Int32
+	rdvJudge         atomic.Bool
+	RdvTimedOut      atomic.Bool
+	RdvSeen          atomic.Int32 // arrivals when the process was found stuck
 	GateTimedOut     atomic.Bool
 	GateInconclusive atomic.Bool
 
@@ -202,7 +220,7 @@ func (e *Env) sharedErr() error { return e.shared }
 
 // NewEnv builds the environment for one execution.
 func NewEnv(id int, spec *Spec, scn *Scenario) *Env {
-	e := &Env{ID: id, Spec: spec, Scn: scn, Results: map[int]uint64{}, elemOut: map[[2]int]Outcome{}, gateCh: make(chan struct{}),
+	e := &Env{ID: id, Spec: spec, Scn: scn, Results: map[int]uint64{}, elemOut: map[[2]int]Outcome{}, gateCh: make(chan struct{}), rdvCh: make(chan struct{}),
 		shared: &TaskErr{id, -2, -2}}
 	for _, eo := range scn.Elems {
 		e.elemOut[[2]int{eo.Unit, eo.Elem}] = eo.O
@@ -215,6 +233,15 @@ func NewEnv(id int, spec *Spec, scn *Scenario) *Env {
 		e.Ems = append(e.Ems, &RecEmitter{env: e, idx: i})
 	}
 	return e
+}
+
+func (e *Env) rdvMember(unit int) bool {
+	for _, u := range e.Scn.RdvUnits {
+		if u == unit {
+			return true
+		}
+	}
+	return false
 }
 
 // WithEnv returns a context that carries the environment.
@@ -370,10 +397,17 @@ func (e *Env) begin(unit, elem, idx int, key string, ctx context.Context, ins []
 		// goroutines started by the scheduler, the cff runtime or generated
 		// code (exiting goroutines no longer appear in a stack dump, unlike
 		// in runtime.NumGoroutine)
-		n := int32(CreatedFor(DumpGoroutines(), e.CallGid))
+		cn, info := CreatedForInfo(DumpGoroutines(), e.CallGid, e.BaseG)
+		n := int32(cn)
 		for {
 			old := e.MaxG.Load()
-			if n <= old || e.MaxG.CompareAndSwap(old, n) {
+			if n <= old {
+				break
+			}
+			if e.MaxG.CompareAndSwap(old, n) {
+				e.mu.Lock()
+				e.MaxGInfo = info
+				e.mu.Unlock()
 				break
 			}
 		}
@@ -389,6 +423,39 @@ func (e *Env) begin(unit, elem, idx int, key string, ctx context.Context, ins []
 		runtime.Gosched()
 	case 2:
 		time.Sleep(time.Duration(o.D) * time.Microsecond)
+	}
+	if e.Scn.Rdv > 0 && e.rdvMember(unit) {
+		if int(e.rdvArrived.Add(1)) >= e.Scn.Rdv {
+			e.rdvOnce.Do(func() { close(e.rdvCh) })
+		}
+		// (as for the gate: a verdict only if the whole process is provably stuck)
+		tm := time.NewTimer(5 * time.Second)
+		select {
+		case <-e.rdvCh:
+		case <-tm.C:
+			if !e.rdvJudge.CompareAndSwap(false, true) {
+				// another waiter is judging (several judges would see each
+				// other running and never find the process stuck)
+				<-e.rdvCh
+			} else if _, stuck := stableBlocked(map[int64]bool{}); stuck {
+				e.RdvSeen.Store(e.rdvArrived.Load())
+				e.RdvTimedOut.Store(true)
+				e.rdvOnce.Do(func() { close(e.rdvCh) })
+			} else {
+				e.GateInconclusive.Store(true)
+				e.mu.Lock()
+				e.InconclusiveWhy = "rendezvous: " + WhyNotStuck()
+				e.mu.Unlock()
+				tm2 := time.NewTimer(10 * time.Second)
+				select {
+				case <-e.rdvCh:
+				case <-tm2.C:
+					e.rdvOnce.Do(func() { close(e.rdvCh) })
+				}
+				tm2.Stop()
+			}
+		}
+		tm.Stop()
 	}
 	if e.Scn.GateU == unit+1 && e.Scn.GateFor > 0 {
 		// Not a wall-clock verdict: after the timer fires, the violation is
